@@ -169,6 +169,16 @@ Theorem model_satisfies_expression_law : forall e c,
 Proof. exact expr_law. Qed.
 Print Assumptions model_satisfies_expression_law.
 
+(* the pair law on the model (Python's == being the model's ObserverGraph.__eq__): for ANY two texts code 12 never
+   arises - results that compare equal denote the same set of paths - and codes 7-10 can only arise when two texts
+   were wrongly claimed to be spellings of one expression *)
+Theorem model_satisfies_pair_law : forall same s1 s2 c,
+  let o1 := compile_str s1 in let o2 := compile_str s2 in
+  In c (law_pair same o1 o2 (outcome_same o1 o2) (outcome_same o1 o2)) ->
+  same = true /\ (c = 7%Z \/ c = 8%Z \/ c = 9%Z \/ c = 10%Z).
+Proof. exact model_pair_law. Qed.
+Print Assumptions model_satisfies_pair_law.
+
 (* Non-vacuity: "a:[b, items.c].*" is accepted; 5 paths; notify false on a, true elsewhere. *)
 Example accepted_nontrivial :
   let s := [CStart 97; CColonC; CLbr; CStart 98; CCommaC; CWs; CStart 105; CStart 116; CStart 101; CStart 109;
